@@ -176,6 +176,26 @@ CHECKS = [
               "reads, leaf 64; thorough = 0..2 entries over 12 paths x {0,4,7} x 2 byte maps (1 100) + 500 random trees <= 60 "
               "entries, depth <= 6, 40 ops, leaf 64 and 4096 + one directory with 1 000 siblings + 1 400 reads; both modes",
          technique="TLA+ model checking (TLC) + replay of TLC-enumerated and TLC-sampled bundles/programs on pkg/fuse"),
+    dict(id="C18",
+         text="FuseRW.tla (POSIX tree with kernel lookup counts and abstract inode numbers; one action per FUSE operation taking "
+              "the observed outcome and inode number; Allowed(op) = admissible outcomes, singletons where POSIX/Linux are "
+              "unambiguous, sets elsewhere) is model-checked exhaustively on a bounded model (tree well-formed, counts never "
+              "negative, live entries have distinct inodes, inode stable while held, every operation has an admissible outcome). "
+              "TLC enumerates every operation program within the bound and samples longer ones; each step carries the operation "
+              "class, Allowed(op), the node of the entry reply and the post tree. The programs are replayed on the real mutable "
+              "mount (fuse.NewMutableFS, operations through fuseutil.FileSystem, every behaviour in a child process): outcome in "
+              "Allowed, inode number/type/size of replies, attributes of every held inode, content of written files after every "
+              "operation; finally every entry is looked up, the mount committed, the bundle downloaded and compared with CommitOp",
+         design_ref="§3 C18",
+         note="Trusted: TLC, the harness' comparison code, the in-memory object stores (checked in C16), the export hook "
+              "pkg/fuse/verif_export.go. No kernel: single goroutine; the generator plays the kernel's part (parents are held, "
+              "linked inodes; forget(N) with N <= count; last reference of a directory only when none of its entries is held; no "
+              "rename into the own subtree). Operations the Linux VFS would answer itself (existing names, file as parent, type "
+              "mismatches, rename onto itself) are sent and recognisable by their class. Bounds: quick = all 313 programs of <= 2 "
+              "operations over {a,b} + 300 random of 3..20; thorough = all 9 913 programs of <= 3 operations + 5 000 random of "
+              "3..60 over {a,b,c}, depth 3. ReadDir and short reads are not judged.",
+         technique="TLA+ model checking (TLC) + replay of TLC-enumerated (BFS) and TLC-sampled (-simulate) operation programs on "
+                   "pkg/fuse's mutable mount, commit and download"),
     dict(id="C16",
          text="ObjectStore.tla is model-checked exhaustively over a hostile key set (pagination = one-page listing, sorted, "
               "duplicate free, exclusive winner); TLC-generated operation histories are replayed on the real localfs store with "
